@@ -89,7 +89,8 @@ impl Definition {
 
 fn span_contains(span: Span, tree: &ParseTree, path: &Path, pos: LineCol) -> bool {
     let loc = tree.code_map.look_up_span(span);
-    loc.file.name() == path.to_str().unwrap()
+    // (a path that is not valid UTF-8 is no file of the project: file names are strings)
+    Some(loc.file.name()) == path.to_str()
         && pos.line >= loc.begin.line
         && pos.line <= loc.end.line
         && pos.column >= loc.begin.column
